@@ -789,6 +789,11 @@ def check_C04(tier, nproc=None):
                 if tr and dp >= nd:
                     continue
                 c.add(Job('vH_FP_round', [('int', nd), ('int', dp), ('bool', tr)], pkg=FP, weight=100, opts={'scanvalue': True, 'nsamples': 1}))
+    # tier 5f: the digit buffer holds every exact halfway point (else decimal.set drops digits of a tie, sets trunc, and the
+    # tie is rounded up instead of to even): for every binade, every even mantissa -- one integer inequality per binade
+    e2s = [-1074, -1073, -1060, -1022, -1000, -800, -537, -300, -100, -53, -1, 0, 1, 52, 500, 971] if tier == 'quick' else list(range(-1074, 972))
+    for e2 in e2s:
+        c.add(Job('vH_FP_halfway', [('int', e2)], pkg=FP, weight=5, opts={'scanvalue': True, 'nsamples': (1 if e2 % 97 == 0 or e2 < -1072 else 0)}))
     for t in S6:
         c.add(Job('vH_FP_set', [('tmpl', 'd', t)], pkg=FP, weight=400, opts={'scanvalue': True, 'nsamples': 2, 'ex.ite_merging': False}))
     for t in TL[:1] + TL[2:]:   # (the 100 006-integer-digit literal is left to the scanner: set's obligation with 99 206 dropped digits is 'unknown' to the integer back end)
@@ -801,10 +806,11 @@ def check_C04(tier, nproc=None):
                 'fallback_early_exit_templates': [_tmplstr(t) for t in S5],
                 'decimal_set_templates': [_tmplstr(t) for t in S6],
                 'floatbits_abstract_decimal_templates': [_tmplstr(t) for t in S7],
+                'halfway_points_fit_the_digit_buffer': 'for binades with ulp 2^e2, e2 in %s: every even mantissa below 2^53 (one integer inequality each; the buffer length is read from the code)' % ('-1074..971' if tier != 'quick' else e2s),
                 'rounded_integer_unit': 'RoundedInteger on every normalised decimal of 1..%d digits, decimal point 0..nd+2, truncation flag both ways (truncated only with a fractional last digit)' % (3 if tier == 'quick' else 5),
                 'exact_path': 'atof64exact for every decimal exponent -26..41, both signs, every 64-bit mantissa',
                 'eisel_lemire': 'every one of the 696 table rows x every 64-bit mantissa with 0 leading zeros; leading-zero counts %s on %s rows; negative sign on the same rows' % (extra_clz, 'every 58th' if tier == 'quick' else 'all')}
-    c.must_reach = ['C04.scan-returned', 'C04.scan-ok', 'C04.el-returned', 'C04.el-ok', 'C04.exact-returned', 'C04.exact-ok', 'C04.glue-returned', 'C04.glue-ok', 'C04.api-number', 'C04.shift-done', 'C04.slow-returned', 'C04.set-returned', 'C04.round-done', 'C04.absbits-returned', 'C04.absbits-finite']
+    c.must_reach = ['C04.scan-returned', 'C04.scan-ok', 'C04.el-returned', 'C04.el-ok', 'C04.exact-returned', 'C04.exact-ok', 'C04.glue-returned', 'C04.glue-ok', 'C04.api-number', 'C04.shift-done', 'C04.slow-returned', 'C04.set-returned', 'C04.round-done', 'C04.absbits-returned', 'C04.absbits-finite', 'C04.halfway-posed']
     _std(c, ['R-ROUND (engine/gosym/fpspec.py): nearest binary64 with ties to even, as linear integer inequalities per exponent field; validated natively with math/big in replays',
              'math/bits.Mul64 and LeadingZeros64 are exact term-level intrinsics',
              'tier 4: eiselLemire64 replaced by its contract (free ok; when ok the result is rnd(man*10^exp), tier 3); atof64exact runs for real in the exact-rational model; f2 == fUp implies every value between the two bounds rounds to f2 (monotonicity of rounding, meta-argument)',
@@ -844,6 +850,12 @@ def check_C19(tier, nproc=None):
         for group in (0, 1, 2, 3):
             for mid in (b'[[]]', b'0', b'{"a":[]}'):
                 c.add(Job('vH_C19', [('tmpl', 'd', [b'[' * d, 1, b']' * d]), ('int', group), ('cbytes', mid)], weight=40 * d, opts=o))
+    if tier != 'quick':
+        # ... and at the deepest nesting the library accepts (a stack-retention threshold anywhere below the limit shows here;
+        # about 7 minutes per job)
+        deeps = deeps + (9990,)
+        for group in (0, 1, 2, 3):
+            c.add(Job('vH_C19', [('tmpl', 'd', [b'[' * 9990, 1, b']' * 9990]), ('int', group), ('cbytes', b'[[]]')], weight=40 * 9990, opts=dict(o, nsamples=0), timeout=1500))
     c.bounds = {'N': N, 'groups': 16, 'templates': [_tmplstr([((x[1], x[0]) if isinstance(x, tuple) and isinstance(x[0], str) else x) for x in t]) + ' g%d' % g for t, g in T],
                 'history_deep_shallow_deep': 'arrays nested %s deep, then one of [[]] / 0 / {"a":[]} through all five Buffer entry points, then the deep document again' % (list(deeps),)}
     c.must_reach = ['C19.warmed', 'C19.success']
@@ -993,6 +1005,14 @@ def check_C20(tier, nproc=None):
         for which in whichs:
             lab = 'vH_C20(%s -> %s%s, entry %d)' % (small[:24].decode('latin1'), big[:40].decode('latin1'), ' +64KiB' if padded else '', which)
             c.add(Job('vH_C20', [('cbytes', small + pad), ('cbytes', big + pad), ('int', which)], label=lab, weight=len(big) + len(pad), opts=o))
+    # one call (successful or failing) from an arbitrary reader state must use up the hints it pays for
+    CALLS = [(b'x', [0, 1, 2]), (b'[1,', [0, 2]), (b'[', [0, 2]), (b'null', [0, 1, 2]), (b'{"a":1', [0, 1]), (b'{"a":1}', [0, 1]), (b'[1]', [0, 2]), (b'[[1,', [0, 2]),
+             (b'{"a":{"b":1,', [0, 1]), (b'[{"a":[1,2],"b":{}},[', [0, 2]), (b'[[],{}]', [0, 2]), (b'', [0, 1, 2])]
+    if tier != 'quick':
+        CALLS += [(b'{"a":[1,{"b":2}],"c":', [0, 1]), (b'[[[1],[2]],[[3', [0, 2]), (b' [1,2,3] ', [0, 2]), (b'{"a":null}', [0, 1]), (b'[null', [0, 2]), (b'{', [0, 1])]
+    for doc, whichs in CALLS:
+        for which in whichs:
+            c.add(Job('vH_C20_call', [('cbytes', doc), ('int', which)], label='vH_C20_call(%s, entry %d)' % (doc.decode('latin1'), which), weight=20 + len(doc), opts=o))
     # one growth step of the result slice at several (concrete) fill levels: what it allocates must be paid for by
     # the spare capacity it buys, whatever the level
     Ls = (0, 7, 100, 5000, 200000) if tier == 'quick' else (0, 1, 7, 64, 100, 1000, 4096, 5000, 65536, 200000, 1000000)
@@ -1005,7 +1025,8 @@ def check_C20(tier, nproc=None):
         c.add(Job('vH_C20_stackstep', [('cbytes', b'[' * (L + 2)), ('int', L)], label='vH_C20_stackstep(L=%d)' % L, weight=50 + L // 10, opts=o))
     c.bounds = {'stack_growth_step_levels': list(SL), 'growth_step_levels': list(Ls), 'shapes': len(shapes), 'hints': 'six size hints (reader and one pooled child) free in [0, 2^20]', 'constants': 'A = 1536 bytes per added input byte, B = 4096',
                 'cost_model': 'make([]T, n): n*sizeof(T); make(map, n): 48n+48; append beyond capacity: 2*needed*sizeof(T); []byte->string: len; new(T): sizeof(T)'}
-    c.must_reach = ['C20.marginal', 'C20.growstep']
+    c.bounds['single_calls'] = '%d documents (well-formed, truncated, wrong type, null, empty) through ReadValue/ReadObject/ReadArray from the same arbitrary reader state: cost + potential left - potential found <= A*len + B' % len(CALLS)
+    c.must_reach = ['C20.marginal', 'C20.growstep', 'C20.call']
     _std(c, ['allocation sizes follow the cost model above (runtime size classes and map bucket layout are not modelled)',
              'any non-negative size hints are reachable (decode a container of that size first); the native replay sets the fields directly',
              'marginal cost of one more member / nesting level / escape bounded by A*added bytes + B is a sufficient condition for linear total cost on these shape families'])
